@@ -85,3 +85,35 @@ def check(case):
                       "the n-th evaluation) the written condition first holds at n = %r\n%s"
                       % (what, clone, t0, "never (within %d ticks)" % bound if got is None else "%d ticks later" % got, P, exp, text)))
     return fails, tr, {"clone": clone, "t0": t0, "exp": exp}
+
+
+# ------------------------------------------------------------------ the main framer's clocks as seen by its auxiliary
+def watcher_script(T, N):
+    return "\n".join(["house h", "framer boss be active first f0", "frame f0", "aux watcher",
+                      "framer watcher be aux", "frame w0", "go next if .framer.boss.state.elapsed >= %s" % T,
+                      "frame w1", "go next if .framer.boss.state.recurred >= %d" % N, "frame w2", "print seen"]) + "\n"
+
+
+def check_watcher(case):
+    """A plain auxiliary whose transitions read the MAIN framer's elapsed / recurred through the store: at the
+    evaluation n ticks after the main framer's outline was entered they are n * tick period and n, also for the
+    conditions of its auxiliaries (which are evaluated in the same run). case: {"P", "T", "N"} -> failures"""
+    P, T, N = case["P"], case["T"], case["N"]
+    text = watcher_script(T, N)
+    n1 = next(n for n in range(1, 400) if n * Fraction(P) >= Fraction(str(T)))
+    n2 = max(n1 + 1, N)       # w1 is entered at tick n1 and first evaluated one tick later
+    tr = run_text(text, n2 + 4, period=P)
+    if tr["build"] != "True" or tr.get("exc"):
+        return [("watcher-build:%s" % (tr.get("exc") or tr["build"]), "build %s %s\n%s" % (tr["build"], tr.get("detail"), text))]
+    got = {}
+    for t, i, e in all_events(tr):
+        if e[0] == "f" and e[1] == "watcher" and e[3] == "enter" and e[2] not in got:
+            got[e[2]] = t
+    fails = []
+    if got.get("w1") != n1:
+        fails.append(("aux-sees-stale-main-elapsed", "tick period %s: the auxiliary's `.framer.boss.state.elapsed >= %s` fired at tick %r, "
+                      "the main framer's elapsed reaches it at its evaluation %d\n%s" % (P, T, got.get("w1"), n1, text)))
+    elif got.get("w2") != n2:
+        fails.append(("aux-sees-stale-main-recurred", "tick period %s: the auxiliary's `.framer.boss.state.recurred >= %d` fired at tick %r, "
+                      "expected tick %d\n%s" % (P, N, got.get("w2"), n2, text)))
+    return fails
